@@ -627,7 +627,10 @@ impl Check for C04 {
                         })
                         .collect();
                     let r = crate::c05::Recipe { header, key, layers };
-                    if r.text_len() < 4096 {
+                    // an interpreter that is ~10^4 times slower gets the small recipes only (the deep and
+                    // wide ones run natively, in three builds, and under ASan)
+                    let cap = if cfg!(miri) { 400 } else { 4096 };
+                    if r.text_len() < cap {
                         break r.text().into_bytes();
                     }
                 }
